@@ -358,16 +358,29 @@ def evalsTo (σ : Scope) (e : Expr) (p : Rat → Bool) : Bool :=
   | .ok v => p v
   | .error _ => false
 
+/-- the duration expressions of the sub-templates of an atomic multi channel template agree at the parameters (the code
+compares the durations of the sub-waveforms that exist only) -/
+def sameDurations (subs : List PT) (σ : Scope) : Bool :=
+  match subs with
+  | [] => true
+  | p :: ps => match templateDuration p σ with
+      | .ok d => ps.all (fun q => match templateDuration q σ with | .ok d' => d' == d | .error _ => false)
+      | .error _ => false
+
 mutual
 /-- durations, entry times and repetition counts are non-negative, the entry times of a table do not decrease, counts
 and loop ranges are exact integers (the code accepts values within 1e-6 of an integer, instantiates negative
-durations / counts as the empty pulse and does not look at the entries of a table of duration 0) -/
+durations / counts as the empty pulse and does not look at the entries of a table of duration 0); the duration
+expressions of the parts of an atomic multi channel template and of the two operands of an atomic arithmetic template
+agree (the code only compares the waveforms that exist: a part of duration 0 silently vanishes with its channels) -/
 def regular : PT → Scope → Bool
   | .const _ dur _ _, σ => evalsTo σ dur (fun d => decide (0 ≤ d))
   | .table _ entries _ _, σ => entries.all (fun x => match instEntries σ x.2 with
       | .ok ws => sortedTimes ws && ws.all (fun w => decide (0 ≤ w.t))
       | .error _ => false)
-  | .point _ _ entries _ _, σ => entries.all (fun x => evalsTo σ x.t (fun t => decide (0 ≤ t)))
+  | .point _ chans entries _ _, σ => (List.range chans.length).all (fun i => match instPoint σ i entries with
+      | .ok ws => sortedTimes ws && ws.all (fun w => decide (0 ≤ w.t))
+      | .error _ => false)
   | .func _ _ dur _ _ _, σ => evalsTo σ dur (fun d => decide (0 ≤ d))
   | .seq _ subs _ _, σ => regularAll subs σ
   | .rep _ body count _ _, σ => evalsTo σ count (fun c => isInt c && decide (0 ≤ c)) && regular body σ
@@ -379,13 +392,116 @@ def regular : PT → Scope → Bool
       | _, _, _ => false
   | .mapping _ body pm _ _ _, σ => regular body (.mapped σ pm)
   | .parallel _ body _, σ => regular body σ
-  | .atomicMulti _ subs _ _ _, σ => regularAll subs σ
+  | .atomicMulti _ subs dur _ _, σ => regularAll subs σ && sameDurations subs σ &&
+      (match dur with
+       | some de => (match σ.eval de, templateDurationFirst subs σ with
+          | .ok x, .ok y => x == y
+          | _, _ => false)
+       | none => true)
   | .arith _ body _ _ _, σ => regular body σ
-  | .arithAtomic _ lhs _ rhs _, σ => regular lhs σ && regular rhs σ
+  | .arithAtomic _ lhs _ rhs _, σ => regular lhs σ && regular rhs σ &&
+      (match templateDuration lhs σ, templateDuration rhs σ with
+       | .ok x, .ok y => x == y
+       | _, _ => false)
   | .timeReversal _ body, σ => regular body σ
 def regularAll : List PT → Scope → Bool
   | [], _ => true
   | p :: ps, σ => regular p σ && regularAll ps σ
+end
+
+mutual
+/-- the quantifier of the correspondence run (weaker than `regular`: without the agreement of the durations of the
+parts of atomic multi channel / atomic arithmetic templates and with the entry times of point templates only
+non-negative): an assignment outside it is not judged -/
+def regularBase : PT → Scope → Bool
+  | .const _ dur _ _, σ => evalsTo σ dur (fun d => decide (0 ≤ d))
+  | .table _ entries _ _, σ => entries.all (fun x => match instEntries σ x.2 with
+      | .ok ws => sortedTimes ws && ws.all (fun w => decide (0 ≤ w.t))
+      | .error _ => false)
+  | .point _ _ entries _ _, σ => entries.all (fun x => evalsTo σ x.t (fun t => decide (0 ≤ t)))
+  | .func _ _ dur _ _ _, σ => evalsTo σ dur (fun d => decide (0 ≤ d))
+  | .seq _ subs _ _, σ => regularBaseAll subs σ
+  | .rep _ body count _ _, σ => evalsTo σ count (fun c => isInt c && decide (0 ≤ c)) && regularBase body σ
+  | .forLoop _ body idx start stop step _ _, σ =>
+      match σ.eval start, σ.eval stop, σ.eval step with
+      | .ok a, .ok b, .ok s =>
+          isInt a && isInt b && isInt s && decide (s ≠ 0) &&
+          (pyRange a.num b.num s.num).all (fun (i : Int) => regularBase body (.range σ idx (i : Rat)))
+      | _, _, _ => false
+  | .mapping _ body pm _ _ _, σ => regularBase body (.mapped σ pm)
+  | .parallel _ body _, σ => regularBase body σ
+  | .atomicMulti _ subs _ _ _, σ => regularBaseAll subs σ
+  | .arith _ body _ _ _, σ => regularBase body σ
+  | .arithAtomic _ lhs _ rhs _, σ => regularBase lhs σ && regularBase rhs σ
+  | .timeReversal _ body, σ => regularBase body σ
+def regularBaseAll : List PT → Scope → Bool
+  | [], _ => true
+  | p :: ps, σ => regularBase p σ && regularBaseAll ps σ
+end
+
+/-- at least one of the channels is kept by the channel mapping -/
+def keepsSome (cm : List (Chan × Option Chan)) (cs : List Chan) : Bool :=
+  cs.any (fun c => match cm.lookup c with | some (some _) => true | _ => false)
+
+mutual
+/-- every atomic leaf keeps at least one channel under the channel mapping.  An atomic leaf all of whose channels are
+dropped vanishes from the instantiated pulse together with its duration (`build_waveform` returns `None`); the closed
+forms of channels added around it (parallel channel, scalar offset times duration) then describe a pulse that is not
+instantiated -- the same exclusion C04 makes -/
+def keeps : PT → List (Chan × Option Chan) → Bool
+  | .const _ _ amps _, cm => keepsSome cm (amps.map (·.1))
+  | .table _ entries _ _, cm => keepsSome cm (entries.map (·.1))
+  | .point _ chans _ _ _, cm => keepsSome cm chans
+  | .func _ ch _ _ _ _, cm => keepsSome cm [ch]
+  | .seq _ subs _ _, cm => keepsAll subs cm
+  | .rep _ body _ _ _, cm => keeps body cm
+  | .forLoop _ body _ _ _ _ _ _, cm => keeps body cm
+  | .mapping _ body _ _ cm' _, cm => match updatedCm cm' cm with
+      | .ok cmU => keeps body cmU
+      | .error _ => false
+  | .parallel _ body _, cm => keeps body cm
+  | .atomicMulti _ subs _ _ _, cm => keepsAll subs cm
+  | .arith _ body _ _ _, cm => keeps body cm
+  | .arithAtomic _ lhs _ rhs _, cm => keeps lhs cm && keeps rhs cm
+  | .timeReversal _ body, cm => keeps body cm
+def keepsAll : List PT → List (Chan × Option Chan) → Bool
+  | [], _ => true
+  | p :: ps, cm => keeps p cm && keepsAll ps cm
+end
+
+mutual
+/-- every part of the template is actually played: durations and repetition counts are strictly positive, sequences
+and loop ranges are not empty.  `create_program` skips a constant / point template of duration 0, the body of a
+repetition with count 0 or of a loop with an empty range, and the scalar operand of an arithmetic template whose
+operand is empty, without looking at the expressions in there, so that the success of `denote` says nothing about
+whether they evaluate; under `positive` every expression of the template is evaluated on the way.
+Hypothesis of the definedness theorems only. -/
+def positive : PT → Scope → Bool
+  | .const _ dur _ _, σ => evalsTo σ dur (fun d => decide (0 < d))
+  | .table id entries meas cons, σ => match templateDuration (.table id entries meas cons) σ with
+      | .ok d => decide (0 < d)
+      | .error _ => false
+  | .point _ _ entries _ _, σ => match entries.getLast? with
+      | some e => evalsTo σ e.t (fun t => decide (0 < t))
+      | none => false
+  | .func _ _ dur _ _ _, σ => evalsTo σ dur (fun d => decide (0 < d))
+  | .seq _ subs _ _, σ => !subs.isEmpty && positiveAll subs σ
+  | .rep _ body count _ _, σ => evalsTo σ count (fun c => decide (0 < c)) && positive body σ
+  | .forLoop _ body idx start stop step _ _, σ =>
+      match σ.eval start, σ.eval stop, σ.eval step with
+      | .ok a, .ok b, .ok s =>
+          !(pyRange a.num b.num s.num).isEmpty &&
+          (pyRange a.num b.num s.num).all (fun (i : Int) => positive body (.range σ idx (i : Rat)))
+      | _, _, _ => false
+  | .mapping _ body pm _ _ _, σ => positive body (.mapped σ pm)
+  | .parallel _ body _, σ => positive body σ
+  | .atomicMulti _ subs _ _ _, σ => positiveAll subs σ
+  | .arith _ body _ _ _, σ => positive body σ
+  | .arithAtomic _ lhs _ rhs _, σ => positive lhs σ && positive rhs σ
+  | .timeReversal _ body, σ => positive body σ
+def positiveAll : List PT → Scope → Bool
+  | [], _ => true
+  | p :: ps, σ => positive p σ && positiveAll ps σ
 end
 
 /-- documented classes on the initial / final path of a template -/
@@ -479,7 +595,8 @@ def pathTags (e : End) : PT → Scope → List (MName × Option MName) → List 
       let r ← if rhs.definedChannels.contains ch then pathTags e rhs σ mm cm ch else pure []
       let le := chanEmpty (denote lhs σ mm cm) cm ch
       let re := chanEmpty (denote rhs σ mm cm) cm ch
-      pure ((if le != re then [Tag.emptyPart] else []) ++ l ++ r)
+      let both := lhs.definedChannels.contains ch && rhs.definedChannels.contains ch
+      pure ((if both && (le != re) then [Tag.emptyPart] else []) ++ l ++ r)
   | .timeReversal .., _, _, _, _ => .ok []
 def pathTagsEnd (e : End) : List PT → Scope → List (MName × Option MName) → List (Chan × Option Chan) → Chan →
     Except Err (List Tag)
@@ -504,13 +621,15 @@ end
 /-! ## The fragment the theorems of `QP.Props.C07` cover -/
 
 mutual
-/-- constant, table, function (affine in `t`), sequence, repetition, iteration, mapping and time reversal (integral
-only: it does not implement the end values) templates that satisfy what
+/-- templates of all thirteen classes (function templates affine in `t`, scalar operands of arithmetic templates
+independent of `t`) that satisfy what
 the constructors of the real classes enforce: amplitude keys are distinct (a `dict`), all parts of a sequence
-define the same channels, a channel mapping is total on the body's channels and injective on the kept ones -/
+define the same channels, an atomic multi channel template has at least one part and its parts define disjoint
+channels, a channel mapping is total on the body's channels and injective on the kept ones -/
 def supported : PT → Bool
   | .const _ _ amps _ => !hasDup (amps.map (·.1))
   | .table .. => true
+  | .point .. => true
   | .func _ _ _ e _ _ => e.affineIn "t"
   | .seq _ subs _ _ => supportedAll subs && sameChannels (PT.firstChannels subs) subs
   | .rep _ body _ _ _ => supported body
@@ -520,7 +639,14 @@ def supported : PT → Bool
       !hasDup (body.definedChannels.filterMap (fun c => match cm'.lookup c with | some (some o) => some o | _ => none)) &&
       !hasDup body.definedChannels
   | .timeReversal _ body => supported body
-  | _ => false
+  | .parallel _ body over => supported body && !hasDup (over.map (·.1))
+  | .atomicMulti _ subs _ _ _ => supportedAll subs && (!hasDup (PT.allChannels subs) && !subs.isEmpty)
+  | .arith _ body _ scalar _ =>
+      supported body && !scalarTimeDependent scalar &&
+      (match scalar with
+       | .perChan m => !hasDup (m.map (·.1)) && m.all (fun x => body.definedChannels.contains x.1)
+       | .uniform _ => true)
+  | .arithAtomic _ lhs _ rhs _ => supported lhs && supported rhs
 def supportedAll : List PT → Bool
   | [] => true
   | p :: ps => supported p && supportedAll ps
@@ -536,7 +662,7 @@ def InjOn (cm : List (Chan × Option Chan)) (chans : List Chan) : Prop :=
 /-! ## Line protocol
 
 `(c07 run (pt <PT>) (params (n q)...) [(sampled (ch (len v0 v1)...)...)] [(pad q)])` →
-`((chans c...) (regular b) (tdur r) (model (c (integral r) (initial r) (final r) (provides b b))...)
+`((chans c...) (regular b) (covered b) (tdur r) (model (c (integral r) (initial r) (final r) (provides b b))...)
   (spec ok|empty|(error cls) (dur q) (c (integral q) (first q|none) (last q|none) (tags-first t...) (tags-last t...))...)
   (sampled (c (integral q) (first ..) (last ..))...) (pad ...))` with `r = (ok q) | (error cls)`. -/
 
@@ -614,7 +740,8 @@ def handle (args : List Sexp) : Sexp :=
           | some [d] => (match Sexp.rat? d with | some d => [padSx r.pt ctx d] | none => [])
           | _ => []
         .list ([.list (.atom "chans" :: r.pt.definedChannels.map Sexp.atom),
-                .list [.atom "regular", Sexp.ofBool (regular r.pt ctx.scope)],
+                .list [.atom "regular", Sexp.ofBool (regularBase r.pt ctx.scope)],
+                .list [.atom "covered", Sexp.ofBool (supported r.pt && regular r.pt ctx.scope && keeps r.pt ctx.cm)],
                 .list [.atom "tdur", resSx (templateDuration r.pt ctx.scope)],
                 modelSx r.pt ctx.scope,
                 specSx r.pt ctx,
